@@ -312,6 +312,9 @@ func run(c *mon.Ctx) {
 		p := genPAT(r, 42)
 		pay := append([]byte{0}, p.Section()...)
 		pk := ref.PaddedPacket(0, r.Intn(16), true, pay)
+		if r.Chance(3) && len(pay) < 184 {
+			pk = ref.PayloadPacket(0, r.Intn(16), true, pay) // the section behind adaptation-field stuffing, ending with the packet
+		}
 		var st bytes.Buffer
 		before := r.Intn(5)
 		if r.Chance(10) {
@@ -319,6 +322,19 @@ func run(c *mon.Ctx) {
 		}
 		for k := 0; k < before; k++ {
 			o := ref.PaddedPacket(1+r.Intn(8190), r.Intn(16), r.Bool(), r.Bytes(r.Intn(185)))
+			if r.Chance(3) {
+				// packets of other PIDs come in every shape: with an adaptation field (stuffing, a PCR), without payload, scrambled
+				o = ref.PayloadPacket(1+r.Intn(8190), r.Intn(16), r.Bool(), r.Bytes(r.Intn(184)))
+				if o[3]&0x20 != 0 && o[4] >= 7 && r.Bool() {
+					o[5] = 0x10
+					r.Fill(o[6:12])
+				}
+				if r.Chance(4) {
+					o[3] &^= 0x10
+					o[4] = 183
+				}
+				o[3] |= byte(r.PickInt([]int{0, 0, 2, 3})) << 6
+			}
 			st.Write(o[:])
 		}
 		noPAT := r.Chance(5)
